@@ -21,3 +21,21 @@ Lemma tie_generated_rspawn_report : forall (pre : list Z) (wstat : Z) (out : Byt
   option_map (fun r => CGen.C_rreport.a_ss__out (snd r)) (CGen.C_rreport.run (S (List.length out)) pre wstat (GenCommon.zs out) 0%Z (Z.of_nat (List.length out)))
   = Some (pre ++ GenCommon.zs (RemoteSmtp.rspawn_report (negb (Z.land wstat 127 =? 0)%Z) (Z.to_N (Z.shiftr wstat 8)) out))%list.
 Proof. exact Gen_report.gen_rreport_eq. Qed.
+(* smtpcode() with get() of today's qmail-remote.c (the SMTP reply parser), translated to Gallina by tools/c2gallina.py
+   (gen/CGen.v, modules C_smtpcode, C_rget): for every byte stream the server may send, the same reply code and the same number of
+   bytes consumed as the model's smtpcode, end of input (the connection died) exactly when the model says so; and the reply text
+   kept never exceeds 5000 bytes and holds no CR *)
+From NQ Require Tie.Gen_proto.
+Lemma tie_generated_smtpcode : forall (s : Bytes.bytes) (t0 : list Z) (l0 : Z), GenCommon.bytes_ok s -> (Z.of_nat (List.length s) < 2 ^ 31)%Z ->
+  match RemoteSmtp.smtpcode s with
+  | Some (code, rest) =>
+      exists st, CGen.C_smtpcode.run (S (S (List.length s))) t0 l0 (GenCommon.zs s) 0%Z = Some (Z.of_N code, st) /\
+                 CGen.C_smtpcode.v_smtpfrom__pos st = Z.of_nat (List.length s - List.length rest)
+  | None => GenCommon.retval (CGen.C_smtpcode.run (S (S (List.length s))) t0 l0 (GenCommon.zs s) 0%Z) = Some (-9)%Z
+  end.
+Proof. exact Gen_proto.gen_smtpcode_eq. Qed.
+Lemma tie_generated_smtpcode_text : forall (s : Bytes.bytes) (t0 : list Z) (l0 : Z) v st, GenCommon.bytes_ok s -> (Z.of_nat (List.length s) < 2 ^ 31)%Z ->
+  CGen.C_smtpcode.run (S (S (List.length s))) t0 l0 (GenCommon.zs s) 0%Z = Some (v, st) ->
+  (CGen.C_smtpcode.v_smtptext__len st <= 5000)%Z /\ CGen.C_smtpcode.v_smtptext__len st = Z.of_nat (List.length (CGen.C_smtpcode.a_smtptext__s st)) /\
+  ~ In 13%Z (CGen.C_smtpcode.a_smtptext__s st).
+Proof. exact Gen_proto.gen_smtpcode_text. Qed.
